@@ -22,7 +22,7 @@
    hypothesis. *)
 From Coq Require Import List ZArith Bool Arith Lia.
 From Coq.Strings Require Import Byte.
-From Muduo Require Import Base_Bytes Gen_C19 C19_Model C19_Proofs C19_DownProofs C19_GenLink C19_Wire C19_WireProofs.
+From Muduo Require Import Base_Bytes Gen_C19 C19_Model C19_Proofs C19_DownProofs C19_GenLink C19_Wire C19_WireProofs C19_Sys C19_SysProofs.
 Import ListNotations.
 Local Open Scope Z_scope.
 
@@ -284,6 +284,50 @@ Theorem C19_frames_arrive :
 Proof. exact frames_arrive. Qed.
 Print Assumptions C19_frames_arrive.
 
+(* ---- two channels: a client and a server joined by a connection (C19_Sys) ----
+   The property's first and last sentences joined.  [ls] is ANY interleaving of CallMethod
+   micro-steps on any number of client threads (SCall), REQUEST frames reaching the server (SReq),
+   the service completing deferred requests in any order (SDone), RESPONSE frames reaching the
+   client (SResp); every frame really goes through RpcMessage serialisation and parsing
+   (arrives_as).  Hypotheses: the user's message type round-trips, fields are below 2 GiB
+   (sys_wf), closure objects are not reused, fewer than 2^63 calls.
+     - a closure that runs has been given the reply that the service made, through the done
+       callback it was handed for exactly this call's (id, service, method, request), or it sees
+       nothing because the server answered this very request with an error code;
+     - no closure runs twice;
+     - when nothing is in flight any more (queues empty, every dispatched request completed,
+       every CallMethod returned) every call made has completed exactly once: its closure ran
+       once (never if it has none) and its response object was deleted once. *)
+Theorem C19_end_to_end :
+  forall (wire_of : bytes -> bytes) (content_of : bytes -> payload),
+    (forall m, content_of (wire_of m) = Valid m) ->
+    forall svcs ls y tr,
+      sys_exec wire_of content_of (sys_init svcs) ls = Some (y, tr) ->
+      sys_wf wire_of ls -> NoDup (sfetch_tags ls) -> next_id (cl y) < 9223372036854775808 ->
+      (forall l st ev tg sn, In (l, st) tr -> ss_cl st = Some ev -> In (ERun tg sn) (snd ev) ->
+         exists t t' c i, In (SCall (LFetch t c)) ls /\ c_tag c = tg /\ In (EFetch t' i tg) (events (cproj tr)) /\
+           ((exists k m, sn = Parsed m /\ In (SDone k m) ls /\
+                         In (EDispatch k i (c_svc c) (c_meth c) (c_req c)) (events (sproj tr))) \/
+            (exists e, sn = Untouched /\ resolve svcs (mkReq i (c_svc c) (c_meth c) (Valid (c_req c))) = inl e))) /\
+      (forall tg, (count_occ Nat.eq_dec (run_tags (events (cproj tr))) tg <= 1)%nat) /\
+      (quiescent y -> forall t c, In (SCall (LFetch t c)) ls ->
+         count_occ Nat.eq_dec (run_tags (events (cproj tr))) (c_tag c) = (if c_done c then 1 else 0)%nat /\
+         count_occ Nat.eq_dec (del_tags (events (cproj tr))) (c_tag c) = 1%nat).
+Proof. exact end_to_end. Qed.
+Print Assumptions C19_end_to_end.
+
+(* On its own channel: every call ever made is still held by the channel (registered, or fetched
+   and not yet registered) or has completed exactly once. *)
+Theorem C19_call_accounting :
+  forall svcs ls s tr,
+    exec (init svcs) ls = Some (s, tr) -> NoDup (fetch_tags ls) ->
+    forall t c, In (LFetch t c) ls ->
+      ((exists i, lookup i (outs s) = Some c) \/ (exists t' i, tget t' (threads s) = TFetched i c)) \/
+      (count_occ Nat.eq_dec (run_tags (events tr)) (c_tag c) = (if c_done c then 1 else 0)%nat /\
+       count_occ Nat.eq_dec (del_tags (events tr)) (c_tag c) = 1%nat).
+Proof. exact call_accounting. Qed.
+Print Assumptions C19_call_accounting.
+
 (* The tie to the source by generated facts (coq/Gen_C19.v is regenerated from the current
    RpcChannel.cc, Atomic.h and rpc.proto by lib/gen_C19.py on every check): the id is fetched by one
    atomic read-modify-write and used as wire id and map key; the call is registered in a mutex
@@ -403,6 +447,30 @@ Example C19_example_wire :
 Proof.
   split; [vm_compute; reflexivity|]. split; [vm_compute; repeat split; try reflexivity; try exact I; intro; discriminate|]. split; [reflexivity|].
   split; vm_compute; reflexivity.
+Qed.
+
+(* a system history: two threads race, the server gets request 2 first, the service answers the
+   two deferred requests in the other order, a third call names an unknown method; at the end
+   nothing is in flight and the three closures have run, each with its own reply *)
+Definition sys_call (k : nat) (meth : name) (req : bytes) : call := mkCall k true true [x53]%byte meth req.
+Definition ex_sys_hist : list slabel :=
+  [SCall (LFetch 1%nat (sys_call 1 [x45] [x0a])); SCall (LFetch 2%nat (sys_call 2 [x44] [x0b]));
+   SCall (LRegister 2%nat); SCall (LSend 2%nat); SCall (LRegister 1%nat); SCall (LSend 1%nat);
+   SReq; SReq; SDone 1%nat [xa1]; SResp; SDone 0%nat [xb2]; SResp;
+   SCall (LFetch 1%nat (sys_call 3 [x46] [])); SCall (LRegister 1%nat); SCall (LSend 1%nat); SReq; SResp]%byte.
+
+Example C19_example_system :
+  exists y tr, sys_exec (fun b => b) Valid (sys_init ex_svcs) ex_sys_hist = Some (y, tr) /\
+    quiescent y /\ sys_wf (fun b => b) ex_sys_hist /\ NoDup (sfetch_tags ex_sys_hist) /\
+    next_id (cl y) < 9223372036854775808 /\
+    flat_map (fun e => match e with ERun c s => [(c, s)] | _ => [] end) (events (cproj tr)) =
+      [(1%nat, Parsed [xa1]); (2%nat, Parsed [xb2]); (3%nat, Untouched)]%byte.
+Proof.
+  eexists. eexists. split; [vm_compute; reflexivity|].
+  split; [repeat split; try reflexivity; intros t; destruct t as [|[|[|t]]]; reflexivity|].
+  split; [intros l Hl; repeat (destruct Hl as [<-|Hl]; [vm_compute; repeat split; try reflexivity; exact I|]); destruct Hl|].
+  split; [vm_compute; repeat constructor; intros H; repeat (destruct H as [H|H]; [discriminate|]); exact H|].
+  split; [vm_compute; reflexivity|reflexivity].
 Qed.
 
 (* ---- observation, outside the property: the out-of-contract call ----
